@@ -4,6 +4,7 @@ import Just.Model.Path
 import Just.Model.Words
 import Just.Model.Percent
 import Just.Model.Case
+import Just.Model.Loader
 import Just.Model.Determinism
 import Just.Generated.Tables
 import Just.Model.Lexer
@@ -122,6 +123,12 @@ def handleDefine (j : Json) : Except String Json := do
 def handleTable (j : Json) : Except String Json := do
   let keys : List String ← fromJson? (← j.getObjVal? "keys")
   return Json.mkObj [("order", toJson (Determinism.keysOf (Determinism.build (keys.map (fun k => (k, ()))))))]
+
+/-- {"op":"display","root":[components],"path":[components]} → the name of the file in a diagnostic -/
+def handleDisplay (j : Json) : Except String Json := do
+  let root : List String ← fromJson? (← j.getObjVal? "root")
+  let path : List String ← fromJson? (← j.getObjVal? "path")
+  return Json.mkObj [("shown", (Loader.display root path).text)]
 
 /-- {"op":"suggest","recipes":[[name,dist]..],"aliases":[[name,dist]..]} → the name `suggest_recipe` proposes (definitions in any order) -/
 def handleSuggest (j : Json) : Except String Json := do
@@ -605,6 +612,7 @@ def handle (line : String) : Json :=
       | "define" => handleDefine j
       | "table" => handleTable j
       | "suggest" => handleSuggest j
+      | "display" => handleDisplay j
       | "clean" => handleClean j
       | "entries" => handleEntries j
       | "percent" => handlePercent j
